@@ -2,12 +2,12 @@ SPECIFICATION Spec
 CONSTANTS
   Contents = {"A", "B"}
   MaxOps = 3
-  Kinds = {"write", "replace"}
-  Fates = {"deliver", "drop", "dup"}
-  Rejects = {"B"}
-  CbOps = "one"
+  Kinds = {"write"}
+  Fates = {"drop"}
+  Rejects = {}
+  CbOps = "both"
   Recheck = TRUE
   Post = "forget"
   Record = "always"
   Export = TRUE
-INVARIANTS Emit
+INVARIANTS EmitHazard
